@@ -799,6 +799,7 @@ func unchanged(l ...interface{}) bool { return true }
 func call(f interface{}, args ...interface{}) interface{} { return nil }
 func callb(f interface{}, args ...interface{}) bool { return true }
 func visited(k interface{}) bool { return true }
+func typeid[T any]() int { return 0 }
 func freshid(i int) bool { return true }
 func maps[T any]() interface{} { return nil }
 func fields[T any]() interface{} { return nil }
